@@ -138,6 +138,17 @@ func c20DemuxOps(pkts []c20Pkt, sequences bool) []c20Op {
 		}
 		ops = append(ops, c20Op{Name: "deliver " + p.Name, Kind: 2, Pkt: i, Copies: 1})
 	}
+	if !sequences {
+		// registry dimension "two attempts registered at once whose metadata share the obfs key and
+		// differ in the nonce" (id a under a1 next to id b under a2; the client picks the metadata):
+		// punch(a1,..) and punch(a2,..) must then both be diverted, whichever attempt the registry
+		// scan meets first. This build ranges over the real map (order not controlled, the probe
+		// delivers both packets in every such state); the order-controlled form of the same pair is
+		// the scenario "shared-key-pair-registered-at-once" of the unit conc. (Added after the
+		// independently seeded change C20-10: the scan stopped at the first attempt whose key
+		// unmasked the magic, nonce mismatch included.)
+		ops = append(ops, c20Op{Name: "add(b,a2:key-of-a1-other-nonce)", Kind: 0, ID: "b", Meta: "a2"})
+	}
 	// burst: two copies back to back with the event buffer (1) not drained in between: the second
 	// emit must take the non-blocking path, both copies are still withheld
 	ops = append(ops, c20Op{Name: "deliver 2x punch(a1,hello,pad0)", Kind: 2, Pkt: 0, Copies: 2})
@@ -477,7 +488,7 @@ func c20DemuxEnumerate(sh *evidence.Shard) {
 	if env.Shard == 0 {
 		part := sh.Part("demux-bfs", "xstate")
 		ops := c20DemuxOps(pkts, false)
-		depth := 10 // the graph closes at depth 7 (48 states); both tiers run to the fixed point
+		depth := 10 // the graph closes at depth 7 (128 states); both tiers run to the fixed point
 		part.Alphabet = map[string]any{"ops": c20HistNames(ops), "packets": pnames, "event_buffer": 1}
 		part.Bounds = map[string]any{"max_depth": depth}
 		var probeErr error
